@@ -146,6 +146,7 @@ def load_prop(prop):
 def run_cases(mod, ctx, cases, kinds_wanted='mgs'):
     """returns list of result dicts, one per case"""
     C_ = C
+    t_start = time.time()
     lines_m, lines_g, lines_s = [C_.tables_line()], [], []
     idx_m, idx_g, idx_s = [], [], []
     res = []
@@ -168,13 +169,17 @@ def run_cases(mod, ctx, cases, kinds_wanted='mgs'):
                 r['sline'] = sl; r['sexp'] = sexp
                 lines_s.append(sl); idx_s.append(k)
     # the compiled driver answers model and spec lines in one pass
-    both = lines_m + lines_s
-    out = C_.run_driver(both)
-    if out[0] != 'ok':
-        raise C_.MachineryFault('driver rejected the tables line: ' + out[0])
-    for j, k in enumerate(idx_m): res[k]['m'] = out[1 + j]
-    off = len(lines_m)
+    t_impl = time.time()
+    both = lines_m[1:] + lines_s
+    stateful = getattr(mod, 'STATEFUL', False)
+    if stateful:
+        out = C_.run_driver([lines_m[0]] + both, parallel=False)[1:]
+    else:
+        out = C_.run_driver(both, prefix=lines_m[0])
+    for j, k in enumerate(idx_m): res[k]['m'] = out[j]
+    off = len(lines_m) - 1
     for j, k in enumerate(idx_s): res[k]['s'] = out[off + j]
+    log(f'  [timing] implementation+generation {t_impl - t_start:.1f}s, driver {time.time() - t_impl:.1f}s for {len(both)} lines')
     if lines_g:
         outg = C_.run_driver(lines_g, gen=True)
         for j, k in enumerate(idx_g): res[k]['g'] = outg[j]
